@@ -184,7 +184,12 @@ func validateProtocolChanges(changes map[string]DefinitionChange, saveWarning, s
 	for _, protChange := range changes {
 		switch protChange := protChange.(type) {
 		case *ProtocolRemoved:
-			saveWarning(protChange.LatestDefinition(), "Removed protocol '%s'", protChange.PreviousDefinition().GetDefinitionMeta().Name)
+			var node Node = protChange.LatestDefinition()
+			if protChange.LatestDefinition() == nil {
+				// the latest model has no definition at all to attach the warning to
+				node = protChange.PreviousDefinition()
+			}
+			saveWarning(node, "Removed protocol '%s'", protChange.PreviousDefinition().GetDefinitionMeta().Name)
 		}
 	}
 
